@@ -333,7 +333,7 @@ def run(ctx) -> None:
                  and isinstance(st.value, ast.Attribute) and st.value.attr == "exit_planes"}
         ts = []
         for i in walk_no_nested(fn.node):
-            if not isinstance(i, ast.If):
+            if not isinstance(i, (ast.If, ast.IfExp)):
                 continue
             t = norm_text(i.test).replace("self.", "").replace("potential.", "")
             for a in alias:
@@ -438,3 +438,250 @@ def run(ctx) -> None:  # noqa: F811
                   "exit_planes=(k,), k < num_slices-1 (every block of a lazy frozen-phonon run) yields the full exit "
                   "wave instead of the wave at plane k", key_detail="finalonly")
     _inner_run_c07b(ctx)
+
+
+# ---- added after the mutation sweep: the slice flags are the indicator of the exit planes (R-FLAGS), every exit
+# ---- plane that is reached is recorded for every detector (R-UPDATECOVER / R-UPDATEARGS), the final-wave shortcut
+# ---- needs a single configuration (R-FINALONLY, second conjunct), the entrance thickness is a concatenation
+_inner_run_c07c = run
+
+
+def _exit_arms(f, cloop):
+    return [a for a in ast.walk(cloop) if isinstance(a, ast.If) and _reads_exit_planes(a.test)
+            and any(isinstance(c, ast.Call) and call_name(c) in (VALIDATE, UPDATE) for st in a.body for c in ast.walk(st))]
+
+
+def _none_test(t: ast.expr, var: str):
+    """True for `var is not None`, False for `var is None`, None otherwise."""
+    if isinstance(t, ast.Compare) and len(t.ops) == 1 and isinstance(t.left, ast.Name) and t.left.id == var and \
+            isinstance(t.comparators[0], ast.Constant) and t.comparators[0].value is None:
+        if isinstance(t.ops[0], ast.IsNot):
+            return True
+        if isinstance(t.ops[0], ast.Is):
+            return False
+    return None
+
+
+def _update_paths(body, mvar: str):
+    """All paths through `body` on which `mvar` is not None: each a list of _update_measurements calls."""
+    paths = [[]]
+    for st in body:
+        if isinstance(st, ast.If):
+            pol = _none_test(st.test, mvar)
+            arms = [st.body] if pol is True else [st.orelse] if pol is False else [st.body, st.orelse]
+            # `a and b` with a conjunct on mvar: the true arm is only taken when mvar is not None
+            sub = []
+            for arm in arms:
+                sub += _update_paths(arm, mvar)
+            paths = [p + s for p in paths for s in sub]
+        elif isinstance(st, (ast.For, ast.While, ast.Try, ast.With)):
+            if any(isinstance(c, ast.Call) and call_name(c) == UPDATE for c in ast.walk(st)):
+                raise AnalysisError("measurement update inside a nested loop / try / with of an exit-plane arm")
+        else:
+            calls = [c for c in ast.walk(st) if isinstance(c, ast.Call) and call_name(c) == UPDATE]
+            paths = [p + calls for p in paths]
+        if len(paths) > 256:
+            raise AnalysisError("too many paths through an exit-plane arm")
+    return paths
+
+
+def _inline(e: ast.expr, df, node: int, keep: tuple = ()) -> ast.expr:
+    """Follow plain single-definition temporaries (`t = <expr>`) back to the expression they hold."""
+    hops = 0
+    while isinstance(e, ast.Name) and e.id not in keep and hops < 8:
+        d = df.single_def(node, e.id)
+        st = df.cfg.nodes[d.node].ast if d is not None else None
+        if d is None or d.kind != "assign" or d.value is None or not (
+                isinstance(st, ast.Assign) and len(st.targets) == 1 and isinstance(st.targets[0], ast.Name)):
+            break
+        e, node, hops = d.value, d.node, hops + 1
+    return e
+
+
+def _sel(e: ast.expr, base: str, df=None, node: int = 0):
+    """'all' for the name `base`, (lower key, upper key) for `base[lo:hi]`, None for anything else."""
+    nz = Normalizer() if df is None else FlowNormalizer(df, node)
+    if df is not None:
+        e = _inline(e, df, node, keep=(base,))
+    if isinstance(e, ast.Name) and e.id == base:
+        return "all"
+    if isinstance(e, ast.Subscript) and isinstance(e.value, ast.Name) and e.value.id == base and \
+            isinstance(e.slice, ast.Slice) and e.slice.step is None:
+        k = lambda x: None if x is None else nz.norm(x).key()
+        return (k(e.slice.lower), k(e.slice.upper))
+    return None
+
+
+def run(ctx) -> None:  # noqa: F811
+    from ..rules import c07_mergewalk
+
+    repo = ctx.repo
+    ctx.rule("R-FLAGS", c07_mergewalk.__doc__.split("\n\n", 1)[1])
+    ctx.rule("R-UPDATECOVER", "in multislice_and_detect, on every path through an exit-plane arm (entrance plane or "
+             "`potential_slice.exit_planes`) on which the measurement buffers exist (`measurements is not None`) every "
+             "detector is updated exactly once: the updates on the path take either the whole detector list or "
+             "consecutive slices of it that chain from its start to its end ([:k] then [k:]). A path without an update "
+             "(or one that leaves part of the detectors out) keeps the allocated zeros at that exit plane, which is "
+             "not what the truncated simulation gives")
+    ctx.rule("R-UPDATEARGS", "every _update_measurements(w, d, m, index) of the series pairs detectors with their own "
+             "buffers: d is the detector list of the function or a slice of it, m is the measurement list or THE SAME "
+             "slice of it, and w is a wave that derives from the propagated state (the function's wave parameter)")
+    mad = repo.function(MS, "multislice_and_detect")
+    epa = repo.method(IAM, "BaseField", "_exit_plane_after")
+    pending = None
+    try:
+        c07_mergewalk.check(ctx, epa, "R-FLAGS")
+    except AnalysisError as e:  # the older rules still get their say first (a violation decides the run)
+        pending = e
+
+    # ---------------- R-UPDATECOVER / R-UPDATEARGS
+    loops = [n for n in walk_no_nested(mad.node) if isinstance(n, ast.For) and isinstance(n.iter, ast.Call)
+             and call_name(n.iter) == loopstate.GENERATOR]
+    ctx.require(len(loops) == 1, "multislice_and_detect: configuration loop not found")
+    cloop = loops[0]
+    rets = [r for r in walk_no_nested(mad.node) if isinstance(r, ast.Return) and r.value is not None]
+    ctx.require(len(rets) == 1 and isinstance(rets[0].value, ast.Name), "multislice_and_detect: `return <measurements>`")
+    mvar = rets[0].value.id
+    ctx.require(len(mad.positional_params) >= 3, "multislice_and_detect: signature")
+    wvar, dvar = mad.positional_params[0], mad.positional_params[2]
+    df = DataFlow(mad.node)
+    arms = _exit_arms(mad, cloop)
+    ctx.require(len(arms) >= 1, "multislice_and_detect: exit-plane arms not found")
+    for arm in arms:
+        role = "entrance" if any(isinstance(n, ast.Compare) for n in ast.walk(arm.test)) else "slice"
+        paths = _update_paths(arm.body, mvar)
+        bad = None
+        for p in paths:
+            sels = [_sel(c.args[1], dvar, df, df.cfg.node_of(_stmt_of(mad.node, c)).idx) if len(c.args) >= 2 else None
+                    for c in p]
+            if any(s is None for s in sels):
+                continue  # reported by R-UPDATEARGS
+            if not p:
+                bad = "a path with the buffers allocated performs no update"
+                break
+            if "all" in sels:
+                if len(sels) != 1:
+                    bad = "a path updates the whole detector list and a part of it again"
+                    break
+                continue
+            # slices must chain None -> ... -> None
+            pos, left = None, list(sels)
+            ok_chain = True
+            while left:
+                nxt = [s for s in left if s[0] == pos]
+                if len(nxt) != 1:
+                    ok_chain = False
+                    break
+                left.remove(nxt[0])
+                pos = nxt[0][1]
+                if pos is None:
+                    break
+            if not ok_chain or left or pos is not None:
+                bad = (f"a path updates only the detector slices {[f'[{a or str()}:{b or str()}]' for a, b in sels]}, "
+                       "which do not cover the detector list")
+                break
+        ctx.check(bad is None, "R-UPDATECOVER", f"{mad.qualname}:{role}-plane arm", mad.loc(arm),
+                  f"{len(paths)} path(s) with allocated buffers, each updates every detector once",
+                  f"in `if {norm_text(arm.test)[:50]}`: {bad}: the exit plane keeps the allocated zeros for those "
+                  "detectors", key_detail="cover")
+    ucalls = [c for c in ast.walk(cloop) if isinstance(c, ast.Call) and call_name(c) == UPDATE]
+    ctx.require(len(ucalls) >= 1, "multislice_and_detect: measurement updates not found")
+    seen: dict[str, int] = {}
+    for c in ucalls:
+        ctx.require(len(c.args) >= 4 and not c.keywords, "unexpected _update_measurements signature use")
+        st = _stmt_of(mad.node, c)
+        at = df.cfg.node_of(st).idx
+        sd, sm = _sel(c.args[1], dvar, df, at), _sel(c.args[2], mvar, df, at)
+        sl = df.backward_slice(df.cfg.node_of(st).idx, c.args[0])
+        from_state = wvar in sl.params or wvar in sl.visited
+        good = sd is not None and sm is not None and sd == sm and from_state
+        what = "all" if sd == "all" else "part" if sd is not None else "?"
+        n = seen[what] = seen.get(what, 0) + 1
+        why = ("the detectors argument is not the detector list (or a slice of it)" if sd is None else
+               "the buffers argument is not the measurement list (or a slice of it)" if sm is None else
+               "detectors and buffers are sliced differently" if sd != sm else
+               "the recorded wave does not derive from the propagated state")
+        ctx.check(good, "R-UPDATEARGS", f"{mad.qualname}:update({what})#{n}", mad.loc(c),
+                  "update(wave from the propagated state, detectors[s], measurements[s], index)",
+                  f"`{norm_text(c)[:90]}`: {why}", key_detail="pairing")
+
+    # ---------------- R-FINALONLY, second conjunct: one configuration
+    ctx.rule("R-FINALONLY-ONE", "the final-wave shortcut of multislice_and_detect (`measurements = None`, detect the "
+             "wave left after the loops) returns the exit wave of the LAST configuration only, so its guard must also "
+             "bound the ensemble to a single configuration: a conjunct `sum/prod(<ensemble shape>) == 1` (or "
+             "num_configurations == 1, <= 1, < 2). A guard that admits several configurations drops all but one of "
+             "them — the truncated simulation used as the reference of a thickness series is then wrong")
+    sites = []
+    for i in walk_no_nested(mad.node):
+        if isinstance(i, ast.If):
+            for arm_, pol in ((i.body, True), (i.orelse, False)):
+                for st in arm_:
+                    if isinstance(st, ast.Assign) and any(dotted(t) == mvar for t in st.targets) and \
+                            isinstance(st.value, ast.Constant) and st.value.value is None:
+                        sites.append((i, pol))
+    if not sites:
+        ctx.ok("R-FINALONLY-ONE", f"{mad.qualname}:no shortcut", mad.where, "every run allocates per-plane measurements")
+    for i, pol in sites:
+        ctx.require(pol, "final-wave shortcut in an else arm: not read")
+        node = df.cfg.node_of(i).idx
+        conj = i.test.values if isinstance(i.test, ast.BoolOp) and isinstance(i.test.op, ast.And) else [i.test]
+
+        def about_ensemble(e: ast.expr) -> bool:
+            if any(isinstance(n, ast.Attribute) and n.attr in ("ensemble_shape", "num_configurations",
+                                                               "num_frozen_phonons") for n in ast.walk(e)):
+                return True
+            sl_ = df.backward_slice(node, e)
+            for dn in sl_.def_nodes:
+                v = getattr(df.cfg.nodes[dn].ast, "value", None)
+                if v is not None and any(
+                        (isinstance(n, ast.Call) and call_name(n) == "_potential_ensemble_shape_and_metadata") or
+                        (isinstance(n, ast.Attribute) and n.attr in ("ensemble_shape", "num_configurations",
+                                                                     "num_frozen_phonons")) for n in ast.walk(v)):
+                    return True
+            return False
+        conj = [_inline(c, df, node) for c in conj]
+        conj = [x for c in conj for x in (c.values if isinstance(c, ast.BoolOp) and isinstance(c.op, ast.And) else [c])]
+        verdict = None  # True ok, False bad
+        shown = ""
+        for c in conj:
+            if not about_ensemble(c):
+                continue
+            shown = norm_text(c)
+            if not (isinstance(c, ast.Compare) and len(c.ops) == 1):
+                raise AnalysisError(f"final-wave shortcut: cannot read the ensemble condition `{shown[:60]}`")
+            a, b, op = c.left, c.comparators[0], c.ops[0]
+            if not about_ensemble(a):
+                a, b = b, a
+                op = {ast.Lt: ast.Gt, ast.Gt: ast.Lt, ast.LtE: ast.GtE, ast.GtE: ast.LtE}.get(type(op), type(op))()
+            kb = Normalizer().norm(b).const_value()
+            if kb is None or about_ensemble(b):
+                raise AnalysisError(f"final-wave shortcut: cannot read the ensemble condition `{shown[:60]}`")
+            a = _inline(a, df, node)
+            counted = (isinstance(a, ast.Call) and (call_name(a) or "").split(".")[-1] in ("sum", "prod") and
+                       len(a.args) == 1) or (isinstance(a, ast.Attribute) and a.attr in ("num_configurations",
+                                                                                         "num_frozen_phonons"))
+            if not counted:
+                raise AnalysisError(f"final-wave shortcut: cannot read the ensemble condition `{shown[:60]}`")
+            single = (isinstance(op, ast.Eq) and kb == 1) or (isinstance(op, ast.LtE) and kb == 1) or \
+                (isinstance(op, ast.Lt) and kb == 2)
+            verdict = single if verdict is None else (verdict or single)
+        ctx.check(bool(verdict), "R-FINALONLY-ONE", f"{mad.qualname}:final-wave shortcut", mad.loc(i),
+                  f"shortcut taken only for a single configuration (`{shown[:60]}`)",
+                  (f"the shortcut is taken under `{shown[:60]}`, which admits several configurations" if shown else
+                   f"the guard `{norm_text(i.test)[:80]}` of the shortcut does not bound the number of configurations")
+                  + ": only the exit wave of the last configuration is detected, the others are dropped",
+                  key_detail="one-configuration")
+
+    # ---------------- R-THICKNESS: the entrance plane is *concatenated* in front of the remaining thicknesses
+    et = repo.method(IAM, "BaseField", "exit_thicknesses")
+    for i in walk_no_nested(et.node):
+        if isinstance(i, ast.If) and "exit_planes" in norm_text(i.test):
+            for r in [x for x in i.body if isinstance(x, ast.Return) and isinstance(x.value, ast.BinOp)
+                      and isinstance(x.value.left, ast.Tuple)]:
+                ctx.check(isinstance(r.value.op, ast.Add), "R-THICKNESS", f"{et.qualname}:entrance-concat", et.loc(r),
+                          "(0.0,) is concatenated with the remaining thicknesses",
+                          f"`{norm_text(r.value)}` is not a concatenation of the entrance thickness with the remaining "
+                          "thicknesses", key_detail="concat")
+    _inner_run_c07c(ctx)
+    if pending is not None:
+        raise pending
